@@ -10,7 +10,7 @@
 use crate::util::*;
 use linfa::prelude::*;
 use linfa_bayes::{GaussianNb, MultinomialNb};
-use ndarray::{s, Array1, Array2, ArrayView2, ShapeBuilder};
+use ndarray::{s, Array1, Array2, ArrayView1, ArrayView2, Axis, ShapeBuilder};
 use std::collections::BTreeMap;
 
 #[path = "c15_ftrl.rs"]
@@ -220,20 +220,48 @@ impl VLabel for bool {
         distinct[*self as usize]
     }
 }
-const LAYOUTS: [&str; 3] = ["owned", "fview", "strided"];
-/// backing storage for a record matrix: C order, Fortran order, or every second row / all but the last
-/// column of a larger matrix (a non-contiguous view)
+const LAYOUTS: [&str; 6] = ["owned", "fview", "strided", "rowrev", "colrev", "inverted"];
+/// backing storage for a record matrix: C order, Fortran order, every second row / all but the last column
+/// of a larger matrix (a non-contiguous view), and three layouts with NEGATIVE strides whose memory is
+/// contiguous (`as_slice_memory_order()` answers `Some`, in an order that is not the logical one): rows stored
+/// backwards and read through `slice(s![..;-1, ..])`, columns stored backwards and read through
+/// `slice(s![.., ..;-1])`, both backwards in Fortran order and read after `invert_axis` on both axes
 fn mk_store<F: linfa::Float>(rows: &Rows, p: usize, layout: usize) -> Array2<F> {
     let n = rows.len();
     match layout {
         1 => Array2::from_shape_fn((n, p).f(), |(i, j)| F::cast(rows[i][j])),
         2 => Array2::from_shape_fn((2 * n, p + 1), |(i, j)| if i % 2 == 0 && j < p { F::cast(rows[i / 2][j]) } else { F::cast(-77.0) }),
+        3 => Array2::from_shape_fn((n, p), |(i, j)| F::cast(rows[n - 1 - i][j])),
+        4 => Array2::from_shape_fn((n, p), |(i, j)| F::cast(rows[i][p - 1 - j])),
+        5 => Array2::from_shape_fn((n, p).f(), |(i, j)| F::cast(rows[n - 1 - i][p - 1 - j])),
         _ => Array2::from_shape_fn((n, p), |(i, j)| F::cast(rows[i][j])),
     }
 }
 fn mk_view<F: linfa::Float>(store: &Array2<F>, p: usize, layout: usize) -> ArrayView2<'_, F> {
-    if layout == 2 {
-        store.slice(s![..;2, ..p])
+    match layout {
+        2 => store.slice(s![..;2, ..p]),
+        3 => store.slice(s![..;-1, ..]),
+        4 => store.slice(s![.., ..;-1]),
+        5 => {
+            let mut v = store.view();
+            v.invert_axis(Axis(0));
+            v.invert_axis(Axis(1));
+            v
+        }
+        _ => store.view(),
+    }
+}
+/// targets of a batch: stored backwards and read through a reversed view for the layouts whose rows are
+fn mk_tstore<L: Clone>(ys: &[L], layout: usize) -> Array1<L> {
+    if layout == 3 || layout == 5 {
+        ys.iter().rev().cloned().collect()
+    } else {
+        ys.iter().cloned().collect()
+    }
+}
+fn mk_tview<L>(store: &Array1<L>, layout: usize) -> ArrayView1<'_, L> {
+    if layout == 3 || layout == 5 {
+        store.slice(s![..;-1])
     } else {
         store.view()
     }
@@ -249,8 +277,8 @@ macro_rules! nb_variant {
             let mut states = vec![];
             for (rows, labels) in h {
                 let store = mk_store::<F>(rows, p, layout);
-                let ys: Array1<L> = labels.iter().map(|l| L::mk(*l, distinct)).collect();
-                let ds = DatasetView::new(mk_view(&store, p, layout), ys.view());
+                let ys: Array1<L> = mk_tstore(&labels.iter().map(|l| L::mk(*l, distinct)).collect::<Vec<_>>(), layout);
+                let ds = DatasetView::new(mk_view(&store, p, layout), mk_tview(&ys, layout));
                 model = params.fit_with(model, &ds).expect("fit_with on a valid batch");
                 let bytes = bincode::serialize(model.as_ref().unwrap()).expect("model serialises");
                 states.push(nb_state_gen(&bytes, L::KIND, std::mem::size_of::<F>() == 4, distinct));
@@ -384,9 +412,12 @@ fn gnb_oracle(ctx: &mut Ctx, h: &Hist, p: usize, vs: f64, states: &[NbState], ki
         cmp_states(ctx, &what, st, &w, kind, "var_replay", &gnb_class(vs, i + 1, uniform), false, t);
         // independent of the open finding: counts, means as above; variance = population variance +
         // Σ_b eps_b n_cb / n_c exactly (an absent class keeps its epsilon, a new class gets the batch's)
+        // (a repair of the open finding — stored variance = textbook variance, which is what the statement asks
+        // for — satisfies this clause as well: either value is accepted, anything else is a failure)
         for (c, (_, _, _, v2)) in st {
             if let Some((_, _, _, w2)) = law.get(c) {
-                ctx.require(near_v(v2, w2, t.second), "var_weighted_eps", kind, || format!("{}: class {} variance {:?}, population variance + row-weighted mean of the batch epsilons {:?}", what, c, v2, w2));
+                let textbook_ok = w.get(c).map(|x| near_v(v2, &x.3, t.second)).unwrap_or(false);
+                ctx.require(near_v(v2, w2, t.second) || textbook_ok, "var_weighted_eps", kind, || format!("{}: class {} variance {:?}, population variance + row-weighted mean of the batch epsilons {:?} (textbook {:?})", what, c, v2, w2, w.get(c).map(|x| x.3.clone())));
             }
         }
     }
@@ -434,6 +465,64 @@ fn op_gnb(em: &mut Em, h: &Hist, p: usize, vs: f64) {
     } else {
         case_u(em, op, body)
     }
+}
+
+/// one `fit` on the whole data; the driver answers through the TEXTBOOK model (`gnbTextbookState`), not
+/// through the incremental step
+fn op_gnb_batch(em: &mut Em, rows: &Rows, labels: &[usize], p: usize, vs: f64) {
+    let h: Hist = vec![(rows.clone(), labels.to_vec())];
+    let op = format!("gnb_batch vs={} p={} x={} y={}", hex64(vs), p, hist_x(&h), hist_y(&h));
+    case_t(em, op, "gnb_batch", |ctx| {
+        let params = GaussianNb::<f64, usize>::params().var_smoothing(vs).check().unwrap();
+        let ds = Dataset::new(arr2(rows, p), Array1::from(labels.to_vec()));
+        let batch = nb_state(&params.fit(&ds).expect("batch fit"));
+        tag("ok:gnb_batch:fitted");
+        cmp_states(ctx, "single fit on the whole data", &batch, &gnb_textbook(rows, labels, p, vs), "gnb:batch", "var_replay", "gnb:batch", false, T64);
+        format!("ok {}", show_state(&batch, "th", "sg"))
+    });
+}
+fn op_mnb_batch(em: &mut Em, rows: &Rows, labels: &[usize], p: usize, alpha: f64) {
+    let h: Hist = vec![(rows.clone(), labels.to_vec())];
+    let op = format!("mnb_batch alpha={} p={} x={} y={}", hex64(alpha), p, hist_x(&h), hist_y(&h));
+    case_t(em, op, "mnb_batch", |ctx| {
+        let params = MultinomialNb::<f64, usize>::params().alpha(alpha).check().unwrap();
+        let ds = Dataset::new(arr2(rows, p), Array1::from(labels.to_vec()));
+        let batch = nb_state(&params.fit(&ds).expect("batch fit"));
+        tag("ok:mnb_batch:fitted");
+        cmp_states(ctx, "single fit on the whole data", &batch, &mnb_textbook(rows, labels, p, alpha), "mnb:batch", "log_prob", "mnb:batch", true, T64);
+        format!("ok {}", show_state(&batch, "fc", "lp"))
+    });
+}
+
+/// Count-size region (oracle only; the data are rebuilt from the request's integers): ONE class fed in two or
+/// three batches of tens of thousands of rows, so that `count_new * count_old` in the pooled-variance weight
+/// passes 2^32 (a product taken through `u32` / `i32` wraps) and is not representable in an `f32` (a product
+/// taken through `f32` is off by 6e-8 relative; the batches have means 2 and 6, so the weight term is ~4 of a
+/// variance of ~6 and the error 2e-7 against a tolerance of 1e-9).  Values are small integers: every sum is exact.
+fn op_gnb_big(em: &mut Em, sizes: &[usize], seed: u64, vs: f64) {
+    let op = format!("#gnb_big sizes={} seed={} vs={}", list(sizes.iter(), |x| x.to_string()), seed, hex64(vs));
+    case_t(em, op, "gnb_big", |ctx| {
+        let mut r = Rng::new(seed);
+        let h: Hist = sizes.iter().enumerate().map(|(b, n)| ((0..*n).map(|_| vec![(r.range(0, 4) + 4 * (b as i64 % 2)) as f64]).collect(), vec![5usize; *n])).collect();
+        let (states, _) = gnb_run(&h, 1, vs).expect("valid history");
+        tag("ok:gnb_big:fitted");
+        // first principles in integers: n, Σx, Σx² are exact
+        let mut eps_w = 0.0;
+        let (mut n, mut sx, mut sxx) = (0f64, 0f64, 0f64);
+        for (i, (rows, _)) in h.iter().enumerate() {
+            let (bn, bs, bss) = rows.iter().fold((0f64, 0f64, 0f64), |a, x| (a.0 + 1.0, a.1 + x[0], a.2 + x[0] * x[0]));
+            eps_w += vs * (bss / bn - (bs / bn) * (bs / bn)) * bn;
+            n += bn;
+            sx += bs;
+            sxx += bss;
+            let (cnt, pr, th, sg) = &states[i][&5];
+            let (mean, var) = (sx / n, sxx / n - (sx / n) * (sx / n));
+            ctx.require(*cnt as f64 == n && *pr == 1.0, "counts_priors", "gnb_big", || format!("after batch {}: count {} prior {}, rows fed {}", i + 1, cnt, pr, n));
+            ctx.require(near(th[0], mean, 1e-12), "mean_replay", "gnb_big", || format!("after batch {}: mean {} but the mean of the {} rows fed is {}", i + 1, th[0], n, mean));
+            ctx.require(near(sg[0], var + eps_w / n, 1e-9), "var_weighted_eps", "gnb_big", || format!("after batch {}: variance {} but population variance + weighted epsilon of the {} rows fed is {}", i + 1, sg[0], n, var + eps_w / n));
+        }
+        "-".to_string()
+    });
 }
 
 /// joint log-likelihoods per class: (class, score, Σ|terms| — the scale of the rounding noise)
@@ -740,7 +829,7 @@ fn gen_labels(rng: &mut Rng, n: usize) -> Vec<usize> {
     l
 }
 fn gen_vs(rng: &mut Rng) -> f64 {
-    *rng.pick(&[0.0, 0.0, 0.0, 0.125, 0.5, 1e-9, 0.0009765625])
+    *rng.pick(&[0.0, 0.0, 0.0, 0.125, 0.5, 1e-9, 0.0009765625, 2.0])
 }
 fn gnb_data(rng: &mut Rng, n: usize, p: usize) -> (Rows, Vec<usize>) {
     let kind = rng.below(3);
@@ -808,7 +897,8 @@ fn gen_queries_real(rng: &mut Rng, rows: &Rows, p: usize) -> Rows {
     (0..nq).map(|_| if rng.coin() { rng.pick(rows).clone() } else { (0..p).map(|j| rng.pick(rows)[j]).collect() }).collect()
 }
 
-fn nb_cases(em: &mut Em, rng: &mut Rng, rows_g: &(Rows, Vec<usize>), rows_m: &(Rows, Vec<usize>), p: usize, mask: u64, with_var: bool) {
+#[allow(clippy::too_many_arguments)]
+fn nb_cases(em: &mut Em, rng: &mut Rng, rows_g: &(Rows, Vec<usize>), rows_m: &(Rows, Vec<usize>), p: usize, mask: u64, with_var: bool, with_batch: bool) {
     let vs = gen_vs(rng);
     let alpha = *rng.pick(&[0.0, 0.5, 1.0, 1.0, 2.0]);
     let hg = mk_hist(&rows_g.0, &rows_g.1, mask);
@@ -826,6 +916,10 @@ fn nb_cases(em: &mut Em, rng: &mut Rng, rows_g: &(Rows, Vec<usize>), rows_m: &(R
     em.count(if vs == 0.0 { "gnb:var_smoothing=0" } else { "gnb:var_smoothing>0" });
     op_gnb(em, &hg, p, vs);
     op_mnb(em, &hm, p, alpha);
+    if with_batch {
+        op_gnb_batch(em, &rows_g.0, &rows_g.1, p, vs);
+        op_mnb_batch(em, &rows_m.0, &rows_m.1, p, alpha);
+    }
     let qg = gen_queries(rng, &rows_g.0, p, false);
     let qm = gen_queries(rng, &rows_m.0, p, true);
     if gnb_pred_ok(&hg, p, vs) {
@@ -844,7 +938,7 @@ fn nb_cases(em: &mut Em, rng: &mut Rng, rows_g: &(Rows, Vec<usize>), rows_m: &(R
     if with_var {
         // one entry-point variant per model: scalar x label type x layout, never the plain f64/usize/owned one
         let pick = |rng: &mut Rng| loop {
-            let v = (rng.coin(), rng.below(3), rng.below(3));
+            let v = (rng.coin(), rng.below(3), rng.below(6));
             if v != (false, 0, 0) {
                 return v;
             }
@@ -877,14 +971,14 @@ fn balanced_case(em: &mut Em, rng: &mut Rng, d: &(Rows, Vec<usize>), p: usize, h
         op_gnb_pred(em, &h, p, vs, &q);
     }
     if rng.chance(1, 3) {
-        op_gnb_var(em, &h, p, vs, &q, rng.coin(), rng.below(3), 1 + rng.below(2), false);
+        op_gnb_var(em, &h, p, vs, &q, rng.coin(), rng.below(3), 1 + rng.below(5), false);
     }
 }
 
 pub fn run(em: &mut Em, rng: &mut Rng) {
-    // KMeansPara samples its candidates inside a rayon `map_init` with one generator per work split; a
-    // single worker thread makes the split (and with it the model) a function of the seed alone
-    let _ = rayon::ThreadPoolBuilder::new().num_threads(1).build_global();
+    // No pin of the global rayon pool any more: since the repair of k-means|| (one generator per fixed block
+    // of observations) the model is a function of history + seed for every number of worker threads, and
+    // `c15_km.rs` runs every k-means history under a 4-thread and under a 1-thread pool and demands the same bits.
     let thorough = em.thorough();
     // --- naive Bayes: every ordered partition of small datasets (n <= 7) into non-empty batches
     let nmax = if thorough { 10 } else { 8 };
@@ -895,7 +989,7 @@ pub fn run(em: &mut Em, rng: &mut Rng) {
             let dg = gnb_data(rng, n, p);
             let dm = mnb_data(rng, n, p);
             for mask in 0..(1u64 << (n - 1)) {
-                nb_cases(em, rng, &dg, &dm, p, mask, mask % 3 == 0);
+                nb_cases(em, rng, &dg, &dm, p, mask, mask % 3 == 0, mask == 0 || mask == (1u64 << (n - 1)) - 1);
             }
         }
     }
@@ -907,7 +1001,7 @@ pub fn run(em: &mut Em, rng: &mut Rng) {
         let dg = gnb_data(rng, n, p);
         let dm = mnb_data(rng, n, p);
         let mask = random_mask(rng, n);
-        nb_cases(em, rng, &dg, &dm, p, mask, true);
+        nb_cases(em, rng, &dg, &dm, p, mask, true, true);
     }
     // real-valued (non-lattice) data, f64 only, oracle only: sums inside ndarray are no longer exact, so an
     // f32 round trip or a reordered / shortened accumulation that lattice data cannot see shows up here
@@ -926,8 +1020,8 @@ pub fn run(em: &mut Em, rng: &mut Rng) {
         let qg = gen_queries_real(rng, &rows_g, p);
         let qm = gen_queries_real(rng, &rows_m, p);
         em.count("nb:real_valued");
-        op_gnb_var(em, &hg, p, vs, &qg, false, rng.below(3), rng.below(3), true);
-        op_mnb_var(em, &hm, p, alpha, &qm, false, rng.below(3), rng.below(3), true);
+        op_gnb_var(em, &hg, p, vs, &qg, false, rng.below(3), rng.below(6), true);
+        op_mnb_var(em, &hm, p, alpha, &qm, false, rng.below(3), rng.below(6), true);
     }
     // a few long histories: class counts in the hundreds (products of counts beyond 16 bits)
     for _ in 0..(if thorough { 40 } else { 8 }) {
@@ -955,6 +1049,15 @@ pub fn run(em: &mut Em, rng: &mut Rng) {
         em.count("nb:long_history");
         op_gnb(em, &cut_at(&dg.0, &dg.1), p, vs);
         op_mnb(em, &cut_at(&dm.0, &dm.1), p, alpha);
+    }
+    // count-size region: one class, batches of tens of thousands of rows (count products beyond 2^32)
+    for _ in 0..(if thorough { 6 } else { 2 }) {
+        let mut sizes = vec![66_000 + rng.below(5_000), 66_000 + rng.below(5_000)];
+        if rng.coin() {
+            sizes.push(1 + rng.below(3_000));
+        }
+        let vs = *rng.pick(&[0.0, 0.125]);
+        op_gnb_big(em, &sizes, rng.next() % 1_000_000, vs);
     }
     // balanced histories: var_smoothing > 0 and incremental == textbook must hold exactly
     let hmax = if thorough { 8 } else { 6 };
